@@ -159,3 +159,34 @@ const("protocol_str_names", "ant-protocol/src/version.rs", lambda src: [n for n,
 const("protocol_str_formats", "ant-protocol/src/version.rs", lambda src: [f for _, f in _proto_decl(src)], ty="list string")
 const("default_network_id", "ant-protocol/src/version.rs", r"pub static ref NETWORK_ID: RwLock<u8> = RwLock::new\((\d+)\);")
 const("ant_protocol_version_truncated", "ant-protocol/Cargo.toml", r'\nversion = "(\d+\.\d+)\.[^"]*"', conv=str, ty="string")
+
+
+# ---- the custom (de)serialisers on NodeServiceData (C19: the registry file round trip)
+def _custom_serde(src):
+    body = _fn_body(src, "pub struct NodeServiceData")
+    out = []
+    for m in re.finditer(r'#\[serde\(\s*serialize_with = "(\w+)",\s*deserialize_with = "(\w+)"\s*\)\]\s*pub (\w+):', body):
+        out += [m.group(3), m.group(1), m.group(2)]
+    # any other serde attribute that changes how a field value is written would have to be modelled too
+    other = re.findall(r"#\[serde\(([^)]*)\)\]", body)
+    if any(not (o.strip() == "default" or o.strip().startswith("default =") or "serialize_with" in o) for o in other):
+        raise ValueError("unmodelled serde attribute on NodeServiceData: %r" % other)
+    return out
+
+
+const("registry_custom_serde", "ant-service-management/src/node.rs", _custom_serde, ty="list string")
+
+
+def _conn_serde_shape(src):
+    """serialize_connected_peers / deserialize_connected_peers map None <-> null and Some(list) <-> the list,
+    element by element (so Some([]) is written as [] and read back as Some([]))"""
+    ser = re.sub(r"\s+", " ", _fn_body(src, "fn serialize_connected_peers"))
+    de = re.sub(r"\s+", " ", _fn_body(src, "fn deserialize_connected_peers"))
+    ok_ser = re.search(r"match connected_peers \{ Some\(peers\) => \{ let peer_strs: Vec<String> = peers\.iter\(\)\.map\(\|p\| p\.to_string\(\)\)\.collect\(\); "
+                       r"serializer\.serialize_some\(&peer_strs\) \} None => serializer\.serialize_none\(\), \}", ser)
+    ok_de = re.search(r"let vec: Option<Vec<String>> = Option::deserialize\(deserializer\)\?; match vec \{ Some\(peer_strs\) => \{.*?"
+                      r"\.map\(\|s\| PeerId::from_str\(&s\)\.map_err\(DeError::custom\)\) \.collect\(\); peers\.map\(Some\) \} None => Ok\(None\), \}", de)
+    return bool(ok_ser) and bool(ok_de)
+
+
+const("connected_peers_serde_is_elementwise", "ant-service-management/src/node.rs", _conn_serde_shape, ty="bool")
